@@ -301,7 +301,7 @@ fn c01_request(rng: &mut Rng) -> (Vec<u8>, bool, bool) {
     let version = *rng.pick(&["HTTP/1.1", "HTTP/1.0"]);
     let conn = *rng.pick(&["keep-alive", "Keep-Alive", "KEEP-ALIVE", "close", "", "keep-alive", "keep-alive"]);
     let mut s: Vec<u8> = Vec::new();
-    let kind = rng.below(14);
+    let kind = rng.below(18);
     let mut wf = true;
     match kind {
         0 => { s.extend(format!("{} {}\r\n", method, target).as_bytes()); wf = false; } // no version
@@ -315,6 +315,9 @@ fn c01_request(rng: &mut Rng) -> (Vec<u8>, bool, bool) {
         s.extend(format!("{}: {}\r\n", rng.pick(&["Connection", "connection"]), conn).as_bytes());
     }
     if kind == 2 { s.extend(b"BadHeaderNoColon\r\n"); wf = false; }
+    if kind == 4 { s.extend(b"X-Latin1: caf\xe9\r\n"); wf = false; }          // not UTF-8
+    if kind == 5 { s.extend(b"X-Cut: \xe2\x82\r\n"); wf = false; }            // truncated multi-byte sequence
+    if kind == 6 { s.extend(b"X-Bare-LF: v\n"); wf = false; }                   // header line without CR
     let body_len = if method == "POST" || method == "PUT" || rng.chance(1, 6) { Some(rng.below(40) as usize) } else { None };
     if let Some(n) = body_len {
         if kind == 3 { s.extend(b"Content-Length: 1x\r\n"); wf = false; }
